@@ -130,6 +130,8 @@ func (p *Prop[S]) Check(t *testing.T) {
 			}()
 		}
 	}
+	tolerateStalls.Store(true)
+	defer tolerateStalls.Store(false)
 	rapid.Check(t, func(rt *rapid.T) {
 		s := p.Gen(rt)
 		if jf != nil {
@@ -138,7 +140,12 @@ func (p *Prop[S]) Check(t *testing.T) {
 				jf.WriteAt(b, 0)
 			}
 		}
+		caseStalled.Store(false)
 		res := p.Run(s)
+		if caseStalled.Swap(false) {
+			addCounter("stalled_cases_set_aside", 1) // neither judged nor counted as a case
+			return
+		}
 		if len(res.Violations) > 0 {
 			path := p.writeReplay(s, res)
 			fmt.Printf("VERIF-FAIL property=%s test=%s replay=%s :: %s\n", p.Property, p.Name, path, firstLine(res.Violations[0]))
@@ -395,6 +402,10 @@ func Main(m *testing.M) {
 	flag.Parse()
 	code := m.Run()
 	flushStats()
+	if n := stalledCases.Load(); n > 0 && code == 0 {
+		fmt.Printf("VERIF-WATCHDOG %d case(s) stalled virtual time and were set aside; no violation among the others\n", n)
+		code = 3
+	}
 	os.Exit(code)
 }
 
@@ -424,31 +435,73 @@ func flushStats() {
 // exited; otherwise a description (deadlock / leaked goroutines) including the
 // stacks of the bubble's goroutines. It must not be used with t.Fatal inside f.
 func Bubble(t *testing.T, f func()) (problem string) {
-	// Wall-clock watchdog (a real timer: it is created outside the bubble). A goroutine
-	// waiting for a plain sync.Mutex is not "durably blocked" for synctest, so virtual
-	// time cannot advance and the case would hang for ever; that is inconclusive, not a
-	// violation. The driver maps exit code 3 to INCONCLUSIVE.
-	wd := time.AfterFunc(watchdog, func() {
+	// Wall-clock watchdog (real time: the caller is outside the bubble). A goroutine waiting for a plain
+	// sync.Mutex is not "durably blocked" for synctest, so while its holder waits for something only the
+	// passing of virtual time would bring, virtual time cannot advance and the case hangs for ever; that is
+	// inconclusive, not a violation. While Prop.Check drives the cases such a case is set aside (its bubble
+	// is abandoned: nothing in it can run any more) and the search goes on, so that a violation that can be
+	// shown is still shown; the process then ends with status 3 unless it found one. Everywhere else
+	// (replays, enumerations) the process ends at once. The driver maps status 3 to INCONCLUSIVE.
+	limit := watchdog
+	if stalledCases.Load() > 0 {
+		limit = laterWatchdog
+	}
+	type outcome struct {
+		problem  string
+		panicVal any
+	}
+	done := make(chan outcome, 1)
+	go func() {
+		var o outcome
+		defer func() {
+			if r := recover(); r != nil {
+				if msg := fmt.Sprint(r); strings.HasPrefix(msg, "deadlock:") {
+					o.problem = msg + "\n" + bubbleStacks()
+				} else {
+					o.panicVal = r
+				}
+			}
+			done <- o
+		}()
+		synctest.Test(t, func(*testing.T) { f() })
+	}()
+	timer := time.NewTimer(limit)
+	defer timer.Stop()
+	select {
+	case o := <-done:
+		if o.panicVal != nil {
+			panic(o.panicVal)
+		}
+		return o.problem
+	case <-timer.C:
+	}
+	n := stalledCases.Add(1)
+	if n == 1 || !tolerateStalls.Load() {
 		buf := make([]byte, 8<<20)
-		n := runtime.Stack(buf, true)
-		fmt.Printf("VERIF-WATCHDOG a case did not finish within %v of wall-clock time (virtual time stuck?)\n%s\n", watchdog, buf[:n])
+		k := runtime.Stack(buf, true)
+		fmt.Printf("VERIF-STALL a case did not finish within %v of wall-clock time (virtual time stuck?)\n%s\n", limit, buf[:k])
+	} else {
+		fmt.Printf("VERIF-STALL another case did not finish within %v of wall-clock time (%d so far)\n", limit, n)
+	}
+	if !tolerateStalls.Load() || n >= maxStalls {
+		fmt.Printf("VERIF-WATCHDOG %d case(s) stalled virtual time; giving up\n", n)
 		flushStats()
 		os.Exit(3)
-	})
-	defer wd.Stop()
-	defer func() {
-		if r := recover(); r != nil {
-			msg := fmt.Sprint(r)
-			if strings.HasPrefix(msg, "deadlock:") {
-				problem = msg + "\n" + bubbleStacks()
-				return
-			}
-			panic(r)
-		}
-	}()
-	synctest.Test(t, func(*testing.T) { f() })
-	return ""
+	}
+	caseStalled.Store(true)
+	return "VERIF-STALL: the case stalled virtual time and was set aside"
 }
+
+var (
+	tolerateStalls atomic.Bool  // Prop.Check is driving: a stalled case is set aside, the search goes on
+	stalledCases   atomic.Int64 // cases set aside so far in this process
+	caseStalled    atomic.Bool  // the case in progress was set aside: its result means nothing
+)
+
+const (
+	laterWatchdog = 8 * time.Second // once a case has stalled, the next ones are given up sooner
+	maxStalls     = 25
+)
 
 const watchdog = 45 * time.Second
 
